@@ -13,7 +13,7 @@ def refill_bodies(P):
         if not (b.id.startswith("fibre_cache::iter::") or b.id.startswith("fibre_cache::<iter::")):
             continue
         pushes = [e for e in b.calls() if e.method == "push_back"]
-        advances = [e for e in b.events if e.kind == "assign" and b.path_of_place(e.data["p"]).endswith("shard_index")]
+        advances = [e for e in b.events if e.kind == "assign" and e.data["p"][1] and b.path_of_place(e.data["p"]).endswith("shard_index")]
         if pushes and advances:
             out.append((b, pushes))
     return out
